@@ -83,6 +83,8 @@ func runScenario(tr *Tracer, s *Scenario, idx int) {
 		e.Close()
 	case "sched":
 		ok = runSched(tr, s)
+	case "rowapi":
+		ok = runRowAPI(tr, s)
 	case "kv":
 		ok = runKV(tr, s)
 	case "order":
